@@ -2,9 +2,10 @@
    Theorems about the model of the VM (every program, all limits, every folding function) and about the
    disassembled stream; the subset / equality of executed offsets against the EVM control-flow graph is
    evaluated by the reference EVM of Evm.v on the implementation's visit counters (tools/p_c08.py);
-   the inclusion THEOREM itself follows from C07's simulation, which is not proved yet (partial). *)
-From SLX Require Import Base gen.Constants gen.OpcodeTable SymVal Disasm VM Word256 EvmSpec Evm
-                        proofs.DisasmProofs proofs.VmBounds proofs.VmControl.
+   the inclusion THEOREM along each path (`C08_executed_offsets_reachable`) is a corollary of C07's simulation
+   (proofs/VmSim.v) for threads whose steps satisfy C07's guards. *)
+From SLX Require Import Base gen.Constants gen.OpcodeTable SymVal Disasm VM Word256 EvmSpec Fold Evm SimTrace SimGuards
+                        proofs.DisasmProofs proofs.VmBounds proofs.VmControl proofs.VmSim.
 Open Scope N_scope.
 
 (* a jump (JUMP or the forked half of JUMPI) is only ever taken to a target t such that the value on the
@@ -58,6 +59,21 @@ Theorem C08_halting_ends_path : forall fold code m m' t rest i,
   v_queue m' = rest /\ exists st, v_stored m' = v_stored m ++ [st].
 Proof. exact halting_retires. Qed.
 
+(* every instruction offset executed (visit counter > 0, not push data) by a thread that the machine retires with
+   ghost path p, all of whose steps satisfied the guards of C07, is executed by the reference EVM along p
+   (`epcs` = the program counters of `erun`, the halting instruction included); in particular it is reachable in the
+   EVM control-flow graph.  (The JUMPDEST a JUMP lands on is executed by the EVM only: the symbolic machine steps
+   over it.) *)
+Theorem C08_executed_offsets_reachable : forall bytes code (cfg : config),
+  bytes_ok bytes -> N.of_nat (length bytes) <= two32 -> try_from bytes = Ok code ->
+  forall n p, guards_along code cfg n (init_vm code cfg) p = true ->
+  forall i sv, nth_error (v_stored (result_state (run constant_fold n (init_vm code cfg)))) i = Some sv ->
+               nth_error (v_paths (result_state (run constant_fold n (init_vm code cfg)))) i = Some p ->
+  exists fuel e, erun bytes fuel p e_init = (EHalt e, []) /\
+    forall o, 0 < count_of o (snd sv) -> nth (N.to_nat o) (immediates 0 bytes) false = false ->
+              In o (epcs bytes fuel p e_init).
+Proof. exact executed_offsets_reachable. Qed.
+
 Example C08_hyps_met :
   validate_jump (fun v => v) [IPush 1 [3]; INop; IOp control_Jump; IOp control_JumpDest] (Known 3) = inl 3
   /\ validate_jump (fun v => v) [IPush 1 [3]; INop; IOp control_Jump; IOp control_JumpDest] (Known (two32 + 3)) = inr EInvalidOffsetForJump
@@ -71,3 +87,4 @@ Print Assumptions C08_jumpdest_is_boundary.
 Print Assumptions C08_reference_valid_dest.
 Print Assumptions C08_both_branches.
 Print Assumptions C08_halting_ends_path.
+Print Assumptions C08_executed_offsets_reachable.
